@@ -144,6 +144,7 @@ class P(Prop):
         (MS, "TV.C04.removeByIdx_index_error", "removeObsList(distinct indices whose largest is >= size): IndexError at the first deletion, nothing removed"),
         (MS, "TV.C04.delLoop_partial", "the deletion loop of removeObsList on ANY integers (negative, out of range): the first k indices were deleted (a negative one counting from the CURRENT end), one observation each; what is left is that sub-sequence ALSO when IndexError is raised; returns (counter + k) iff k = len, otherwise raises at the k-th index, out of range for the list left"),
         (MS, "TV.C04.removeByIdx_partial", "removeObsList(ANY list of integers): nothing removed and 0 returned (empty list / repeated index), or the loop runs over the indices in decreasing order d and the first k are deleted: returns k = len(tab), or raises IndexError at d[k] with these k deletions done (they stay done)"),
+        (MS, "TV.C04.removeByIdx_sublist_any", "removeObsList(ANY list of integers), returning or raising: what is left is a SUB-SEQUENCE of the source (order kept, nothing duplicated or invented); when it returns n, exactly n observations are gone and n is 0 (refused) or len(tab)"),
         (MS, "TV.C04.extractSpanTrack_empty", "extractSpanTime(empty track) raises IndexError"),
         # ---- the remaining list operations (Model/SeqMore.lean, Props/C04More.lean)
         (MM, "TV.C04.reverse_spec", "reverse() = all the observations, last first, with the source's table (= track[::-1]); every observation reads what it read in the source"),
